@@ -106,7 +106,7 @@ BindingFaithful(o) ==
 (***************************************************************************)
 (* scalar kinds                                                            *)
 (***************************************************************************)
-Rep(c, n) == [i \in 1 .. n |-> c]
+Rep(c, n) == [i \in 1 .. n |-> c] \o <<>>                \* (forces a tuple: Len and indexing in the writer loops stay O(1))
 Words == <<"a","a","a","a","s","a","a","a","a","s","a","a","a","a","s","a","a","a","a","s","a","a","a","a","s","a","a","a","a">>
 Text(k) == CASE k = "w" -> <<"a">>                         \* a word
              [] k = "e" -> <<>>                            \* the empty string ('' in every style but plain)
